@@ -7,7 +7,7 @@ from lxml import etree
 from harness.core import Result
 from harness import xsdgen, xmlcanon, enginea, valgen
 
-LEAN_MODULES = ["ZeepProofs.C01", "ZeepProofs.C01Choice", "ZeepProofs.C01Repeat", "ZeepProofs.C01Values", "ZeepProofs.C01All", "ZeepProofs.C01Nested"]
+LEAN_MODULES = ["ZeepProofs.C01", "ZeepProofs.C01Choice", "ZeepProofs.C01Repeat", "ZeepProofs.C01Values", "ZeepProofs.C01All", "ZeepProofs.C01Nested", "ZeepProofs.C01ChoiceRepeat"]
 NS = "Zeep.Xsd."
 THEOREMS = [NS + t for t in ("c01_elem_roundtrip", "c01_flat_sequence_roundtrip", "c01_record_roundtrip", "c01_nested_record_roundtrip",
                               "c01_absent_optional_reads_none", "c01_empty_repetition_reads_empty", "c01_k8_counterexample",
@@ -15,25 +15,27 @@ THEOREMS = [NS + t for t in ("c01_elem_roundtrip", "c01_flat_sequence_roundtrip"
                               "dec_record_of_members", "seqRound_full", "seqRound_skip", "seqLoop_rounds", "member_seq_repeated",
                               "c01_record_with_repeated_sequences_roundtrip", "c01_record_with_repeated_sequences_roundtrip_root",
                               "allMembers_pool", "dec_record_all", "c01_all_record_roundtrip", "c01_all_record_roundtrip_root",
-                              "member_seq_once", "member_seq_absent", "member_group_once", "c01_record_with_nested_particles_roundtrip")] + [
+                              "member_seq_once", "member_seq_absent", "member_group_once", "c01_record_with_nested_particles_roundtrip",
+                              "choiceLoop_picks", "member_choice_repeated", "c01_record_with_repeated_choices_roundtrip",
+                              "c01_record_with_repeated_choices_roundtrip_root")] + [
     "Zeep.Bind." + t for t in ("render_is_reference_serialisation", "c01_values_roundtrip", "serList_trim")]
 LEVEL = "proof"
 MANIFEST = dict(
     engine="A: lean/ZeepModel/Xsd/Serialize.lean + Parse.lean (+ harness/valgen.py, harness/enginea.py)",
     technique="Lean 4 model: reference serialiser of instance trees (serItem) and zeep's greedy deque decoder (parseNode); round-trip theorems "
-              "parse (serialise inst) = inst proved by induction for element repetitions, flat sequences and records nested to any depth whose members are elements, non-repeating choices between elements, or repeated nested sequences (_value_N: any number of rounds within the bounds, maxOccurs unbounded included); "
+              "parse (serialise inst) = inst proved by induction for element repetitions, flat sequences and records nested to any depth whose members are elements, choices between elements (taken once, or repeating any number of times - _value_N lists of picks, the same branch also twice in a row, maxOccurs unbounded included), or repeated nested sequences (_value_N: any number of rounds within the bounds, maxOccurs unbounded included); "
               "value level (ZeepProofs/C01Values.lean): what the binder model renders for an accepted call is the reference serialisation of the instance the arguments denote (mutual induction over every record signature), hence decode (render args) = that instance; "
               "differential tie on conforming values generated independently of zeep (construct, render, decode, compare with what was supplied; "
               "model serialisation vs zeep's rendering; model decode vs zeep's decode of the rendered document)",
     text="The model's decoder is proved to invert the model's serialiser on element repetitions with any occurrence bounds, on flat sequences of "
          "distinctly named declarations and on records nested to arbitrary depth — sequences whose members are single / optional / repeated leaf "
          "or record-typed elements and non-repeating choices between such elements (a branch taken, or an optional choice left out), with "
-         "attributes; and repeated nested sequences whose rounds start with a single required element and end with a non-empty member (ZeepProofs/C01Repeat.lean: seqRound_full - one complete round followed by anything that cannot be mistaken for its last member; seqRound_skip - on a deque starting with none of its names a round ends the repetition or consumes nothing, never raises; seqLoop_rounds - the loop returns exactly the rounds whatever maxOccurs); the sequence argument (seqRound_members, dec_record_of_members) is generic in the kind of member; non-repeating nested sequences and groups as members (ZeepProofs/C01Nested.lean: xs:group ref and inner xs:sequence, flattened by zeep, one round in the decoder; an optional one left out); records whose content model is xsd:all over distinctly named elements (ZeepProofs/C01All.lean: the per-tag queues of All.parse_xmlelements are worked through member by member and end empty); an absent optional decodes to no item, an empty repetition to the empty list. At the level of call arguments: render_is_reference_serialisation proves, for every record signature without nillable elements and every argument tree without xsd.Nil, that Bind.emitTy (the model of construct-then-render tied to zeep by C12) emits exactly serItem (toTy signature) (itemOf arguments); c01_values_roundtrip composes it with the round trip; toTy / itemOf (ZeepModel/Xsd/Denote.lean) are compared on every C12 run with the type zeep compiled and with the model's decode of what zeep rendered (driver op bind.denote). Every run ties the model to zeep: values "
+         "attributes; and repeated nested sequences whose rounds start with a single required element and end with a non-empty member (ZeepProofs/C01Repeat.lean: seqRound_full - one complete round followed by anything that cannot be mistaken for its last member; seqRound_skip - on a deque starting with none of its names a round ends the repetition or consumes nothing, never raises; seqLoop_rounds - the loop returns exactly the rounds whatever maxOccurs); repeating choices (ZeepProofs/C01ChoiceRepeat.lean: choiceLoop_picks - in every round exactly the branch carrying the next node's name consumes, exactly one node; the loop returns exactly the picks and stops at maxOccurs, at the end of the input, or in front of a foreign name); the sequence argument (seqRound_members, dec_record_of_members) is generic in the kind of member; non-repeating nested sequences and groups as members (ZeepProofs/C01Nested.lean: xs:group ref and inner xs:sequence, flattened by zeep, one round in the decoder; an optional one left out); records whose content model is xsd:all over distinctly named elements (ZeepProofs/C01All.lean: the per-tag queues of All.parse_xmlelements are worked through member by member and end empty); an absent optional decodes to no item, an empty repetition to the empty list. At the level of call arguments: render_is_reference_serialisation proves, for every record signature without nillable elements and every argument tree without xsd.Nil, that Bind.emitTy (the model of construct-then-render tied to zeep by C12) emits exactly serItem (toTy signature) (itemOf arguments); c01_values_roundtrip composes it with the round trip; toTy / itemOf (ZeepModel/Xsd/Denote.lean) are compared on every C12 run with the type zeep compiled and with the model's decode of what zeep rendered (driver op bind.denote). Every run ties the model to zeep: values "
          "are generated from the section-5 grammar with the wide leaf table (boundary values 0 / False / empty / extremes, list and restriction "
          "types, per-declaration forms, nillable, xsi:type substitution incl. mixed lists, xsd:any, recursive types through repeated choice and "
          "sequence), supplied as natives / dicts / value objects, rendered by zeep, decoded again and compared field by field with what was "
          "supplied; the rendered document is compared with the model's serialisation and zeep's decode of it with the model's decode.",
-    note="Proof coverage is partial: repeating choices, repeated sequences of other shapes (first member optional or repeated, last member empty), repeated groups, wildcards, simpleContent and xsi:type / "
+    note="Proof coverage is partial: choices whose branches are not single required elements, repeated sequences of other shapes (first member optional or repeated, last member empty), repeated groups, wildcards, simpleContent and xsi:type / "
          "xsi:nil are modelled and tied but their round-trip theorems are not proved. Known findings K7 (element leaf with an empty lexical form reads back None) and K8 (an element of a complex type that renders "
          "without children and attributes reads back None) are listed in known_findings.json.",
     design_ref="DESIGN.md sections 5 and 6, C01",
